@@ -21,7 +21,7 @@ Proof.
 Qed.
 Print Assumptions C05_string_key_refuted.
 
-(* F5b (repaired by a fix: commit d93f459): compute_dowhile_state selected the instances of the condition's producer
+(* F5b (repaired by a fix: commit 5c6cbf4): compute_dowhile_state selected the instances of the condition's producer
    by NAME only.  With two looped components named "x" in stages 0 and 1 and the condition stage1.x/f:output, the
    by-name selection returns the instance of stage 0 — not an instance of the condition's component. *)
 Theorem C05_cond_by_name_refuted :
